@@ -19,6 +19,9 @@ type C08Case struct {
 	// middleware's own Config() (the get-modify-set workflow) by applying Edit.
 	Derived bool   `json:"derived,omitempty"`
 	Edit    string `json:"edit,omitempty"`
+	// Earlier are Reconfigure calls (accepted or rejected, as the library decides) made on the same
+	// middleware before the judged one: what a rejected call leaves untouched must not depend on them.
+	Earlier []Cfg `json:"earlier,omitempty"`
 }
 
 var c08Edits = []string{"pna", "pna-nocors", "both-pna", "credentialed", "star-origin", "insecure-origin", "psl-origin", "bad-origin", "bad-method", "bad-reqhdr", "bad-reshdr",
@@ -144,6 +147,15 @@ func c08Gen(t *rapid.T) C08Case {
 		c.Prior = &p
 		c.Debug = chance(t, "debug", 50)
 	}
+	if chance(t, "earlier", 35) {
+		for i, n := 0, intIn(t, "nearlier", 1, 3); i < n; i++ {
+			if chance(t, "earliervalid", 50) {
+				c.Earlier = append(c.Earlier, genValidCfg(t))
+			} else {
+				c.Earlier = append(c.Earlier, genAtomCfg(t, mixOneViolation))
+			}
+		}
+	}
 	if c.Prior != nil && chance(t, "derived", 50) {
 		c.Derived = true
 		c.Edit = pick(t, "edit", c08Edits)
@@ -175,6 +187,20 @@ func c08Check(c C08Case, rec *Recorder) *Disc {
 		}
 		m.SetDebug(c.Debug)
 	}
+	cur := c.Prior
+	hist := ""
+	for i := range c.Earlier {
+		e := c.Earlier[i].Cors()
+		if err := m.Reconfigure(&e); err == nil {
+			cur = &c.Earlier[i]
+			hist += "a"
+		} else {
+			hist += "r"
+		}
+	}
+	if hist != "" {
+		rec.Class("earlier-calls:" + hist)
+	}
 	if c.Derived {
 		if m.Config() == nil {
 			return nil
@@ -197,8 +223,8 @@ func c08Check(c C08Case, rec *Recorder) *Disc {
 		rep.MaxAge, rep.Status = 77, 201
 	}
 	var suite []Req
-	if c.Prior != nil {
-		suite = append(suite, Suite(*c.Prior)...)
+	if cur != nil {
+		suite = append(suite, Suite(*cur)...)
 	}
 	suite = append(suite, Suite(rep)...)
 	wrap := oneWrap(m.Wrap) // one wrapped handler across the rejected call
@@ -212,7 +238,7 @@ func c08Check(c C08Case, rec *Recorder) *Disc {
 	}
 	after := SuiteSig(wrap, suite)
 	if i := firstDiff(before, after); i >= 0 {
-		return discf("prior %+v debug=%v: after the rejected Reconfigure(%+v), {%s} is answered %s instead of %s", c.Prior, c.Debug, c.Invalid, suite[i].Brief(), abbrev(after[i], 400), abbrev(before[i], 400))
+		return discf("prior %+v debug=%v earlier Reconfigure calls %+v (%s): after the rejected Reconfigure(%+v), {%s} is answered %s instead of %s", c.Prior, c.Debug, c.Earlier, hist, c.Invalid, suite[i].Brief(), abbrev(after[i], 400), abbrev(before[i], 400))
 	}
 	if got := cfgJSON(m.Config()); got != cfgBefore {
 		return discf("prior %+v: Config() changed after a rejected Reconfigure(%+v): %s -> %s", c.Prior, c.Invalid, cfgBefore, got)
@@ -220,12 +246,12 @@ func c08Check(c C08Case, rec *Recorder) *Disc {
 	// debug mode as it was: SetDebug(current) must be a no-op and a failing
 	// preflight must still be answered as before (covered by the suite), and
 	// on a passthrough the middleware must still be a passthrough
-	if c.Prior == nil && m.Config() != nil {
+	if cur == nil && m.Config() != nil {
 		return discf("passthrough middleware got a configuration from a rejected Reconfigure(%+v)", c.Invalid)
 	}
 	// non-triviality: would a partial application have been visible?
 	if mr, err := cors.NewMiddleware(rep.Cors()); err == nil {
-		mr.SetDebug(c.Debug && c.Prior != nil)
+		mr.SetDebug(c.Debug && c.Prior != nil && cur != nil)
 		if firstDiff(before, SuiteSig(mr.Wrap, suite)) >= 0 {
 			rec.NonTrivialHash(h64(fmt.Sprintf("%+v|%v|%+v", c.Prior, c.Debug, c.Invalid)))
 			rec.Class("partial-application-would-be-visible")
@@ -243,7 +269,7 @@ func c08Check(c C08Case, rec *Recorder) *Disc {
 
 func TestC08(t *testing.T) {
 	Prop[C08Case]{ID: "C08", Gen: c08Gen, Check: c08Check,
-		Rule: "generator: prior state in {passthrough, any valid configuration x debug on/off} x invalid configuration: either from the labelled-atom generator (exactly one planted violation, or many simultaneous violations; the other fields valid and unrelated to the prior state) or DERIVED from the middleware's own Config() by one of 22 edits (17 single edits; 5 compound ones that first GROW the origin list with valid neighbours of the current patterns - same host with another/any port, a subdomain - and then add one violation elsewhere) (get-modify-set: switch on a PNA mode or credentials, add */insecure/public-suffix/malformed origin, bad method/header, bounds, drop a tolerate switch), judged invalid by a fresh NewMiddleware. " +
+		Rule: "generator: prior state in {passthrough, any valid configuration x debug on/off} x (35%) 1-3 earlier Reconfigure calls on the same middleware, each with a valid or a one-violation configuration x invalid configuration: either from the labelled-atom generator (exactly one planted violation, or many simultaneous violations; the other fields valid and unrelated to the prior state) or DERIVED from the middleware's own Config() by one of 22 edits (17 single edits; 5 compound ones that first GROW the origin list with valid neighbours of the current patterns - same host with another/any port, a subdomain - and then add one violation elsewhere) (get-modify-set: switch on a PNA mode or credentials, add */insecure/public-suffix/malformed origin, bad method/header, bounds, drop a tolerate switch), judged invalid by a fresh NewMiddleware. " +
 			"Oracle: Reconfigure returns non-nil; responses on Suite(prior) u Suite(repaired(invalid)), the Config() value and passthrough-ness are the same before and after. " +
 			"non-trivial = the 'repaired' variant of the invalid configuration (violations removed, valid fields kept) answers the suite differently from the prior state, i.e. a partial application would be visible; distinct by (prior, debug, invalid).",
 		Assumptions: []string{"debug mode is observed through the failing-preflight requests of the suite"}}.Run(t)
